@@ -156,7 +156,7 @@ func VerifC12Crash() {
 	vUnwind(300000)
 	w := vNewDiamondWorld()
 	cr := &vCrasher{stores: []*vStore{w.meta, w.vmeta, w.blob}}
-	cr.crashAt = vChoose("crashAt", 13) + 1
+	cr.crashAt = vInt("crashAt", 1, 13) // symbolic crash point
 	cr.landed = vChoose("landed", 2) == 1
 	if vChoose("victim", 2) == 0 {
 		// the first run of split s1 (files v1) dies; s1 is rerun with files v2; s2 is added; commit
